@@ -815,6 +815,14 @@ fn observe(w: &World, case: &str, st: &mut Stats) {
                 fail(st, "format-parse", case, &format!("to_string = {:?}, parsed back as {:?}", text, back.as_ref().map(value_s)));
             }
         }
+        "EV" => {
+            // Element::set_character_data / character_data with a value of any kind on an element of every spec kind
+            let slot: usize = f[1].parse().unwrap();
+            match parse_value(w, f[2]) {
+                Some(v) => element_value_case(w, slot, &v, case, st),
+                None => println!("{} => BAD-VALUE", case),
+            }
+        }
         "XS" => {
             // the string as element character data and as an attribute value, written by ArxmlFile::serialize and read back
             // by AutosarModel::load_buffer (no model side: the observation is decided by the oracle alone)
@@ -845,6 +853,214 @@ fn observe(w: &World, case: &str, st: &mut Stats) {
             }
         }
         _ => println!("{} => UNKNOWN-CASE", case),
+    }
+}
+
+// ------------------------------------------------------------------------------------------ element-level values
+
+/// the element-level targets: for every CharacterDataSpec kind the nearest element (from the root, latest version) whose
+/// character data has that kind: (label, path from the root as (name, is_named), spec)
+fn element_targets() -> Vec<(&'static str, Vec<(ElementName, bool)>, &'static CharacterDataSpec)> {
+    use std::collections::{HashMap, VecDeque};
+    let latest = AutosarVersion::LATEST;
+    let mut parent: HashMap<(u32, u32), ((u32, u32), ElementName, bool)> = HashMap::new();
+    let mut types: HashMap<(u32, u32), ElementType> = HashMap::new();
+    let mut order: Vec<ElementType> = Vec::new();
+    let mut q = VecDeque::new();
+    let root = ElementType::ROOT;
+    types.insert(crate::spec::et_ids(&root), root);
+    q.push_back(root);
+    while let Some(t) = q.pop_front() {
+        let tid = crate::spec::et_ids(&t);
+        for (name, ct, mask, _) in t.sub_element_spec_iter() {
+            if mask & (latest as u32) == 0 || name == ElementName::ShortName {
+                continue;
+            }
+            let cid = crate::spec::et_ids(&ct);
+            if types.contains_key(&cid) {
+                continue;
+            }
+            types.insert(cid, ct);
+            parent.insert(cid, (tid, name, ct.is_named_in_version(latest)));
+            order.push(ct);
+            q.push_back(ct);
+        }
+    }
+    let wanted: Vec<(&'static str, Box<dyn Fn(&CharacterDataSpec) -> bool>)> = vec![
+        ("enum", Box::new(|c| matches!(c, CharacterDataSpec::Enum { .. }))),
+        ("pattern-integer", Box::new(|c| matches!(c, CharacterDataSpec::Pattern { regex, .. } if regex.starts_with("0|[\\+\\-]?[1-9]")))),
+        ("pattern-numerical", Box::new(|c| matches!(c, CharacterDataSpec::Pattern { regex, .. } if regex.contains("INF") && regex.contains("NaN")))),
+        ("string", Box::new(|c| matches!(c, CharacterDataSpec::String { .. }))),
+        ("uint", Box::new(|c| matches!(c, CharacterDataSpec::UnsignedInteger))),
+        ("float", Box::new(|c| matches!(c, CharacterDataSpec::Float))),
+    ];
+    let mut out = Vec::new();
+    for (label, pred) in wanted {
+        let found = order.iter().find(|t| t.content_mode() == ContentMode::Characters && !t.is_ref() && t.chardata_spec().map(|c| pred(c)).unwrap_or(false));
+        if let Some(t) = found {
+            let mut path = Vec::new();
+            let mut cur = crate::spec::et_ids(t);
+            while let Some((p, name, named)) = parent.get(&cur) {
+                path.push((*name, *named));
+                cur = *p;
+            }
+            path.reverse();
+            out.push((label, path, t.chardata_spec().unwrap()));
+        }
+    }
+    out
+}
+
+/// the natural number a float denotes exactly (None: negative, fractional, not finite, or >= 2^128); -0.0 is 0
+fn exact_nat(x: f64) -> Option<u128> {
+    let b = x.to_bits();
+    if x == 0.0 {
+        return Some(0);
+    }
+    if !x.is_finite() || (b >> 63) == 1 {
+        return None;
+    }
+    let exp = ((b >> 52) & 0x7ff) as i32;
+    if exp == 0 {
+        return None;
+    }
+    let m = (b & ((1u64 << 52) - 1)) | (1u64 << 52);
+    let e = exp - 1075;
+    if e >= 0 {
+        if e > 75 { None } else { Some((m as u128) << e) }
+    } else if -e >= 53 || m & ((1u64 << (-e)) - 1) != 0 {
+        None
+    } else {
+        Some((m >> (-e)) as u128)
+    }
+}
+
+/// the stored value is the handed value: same kind and same bits / text, or another kind that denotes EXACTLY the same number / text
+fn denotes_same(handed: &CharacterData, stored: &CharacterData) -> bool {
+    use CharacterData::*;
+    match (handed, stored) {
+        (Float(x), UnsignedInteger(n)) => exact_nat(*x) == Some(*n as u128),
+        (UnsignedInteger(n), Float(y)) => exact_nat(*y) == Some(*n as u128),
+        (UnsignedInteger(n), String(s)) | (String(s), UnsignedInteger(n)) => s.parse::<u128>().ok() == Some(*n as u128),
+        (Float(x), String(s)) | (String(s), Float(x)) => s.parse::<f64>().ok().map(|y| y.to_bits() == x.to_bits() || (y.is_nan() && x.is_nan())).unwrap_or(false),
+        (Enum(e), String(s)) | (String(s), Enum(e)) => s == e.to_str(),
+        (a, b) => same_value(a, b),
+    }
+}
+
+fn element_value_case(w: &World, slot: usize, handed: &CharacterData, case: &str, st: &mut Stats) {
+    use autosar_data::AutosarModel;
+    let targets = element_targets();
+    let (label, path, spec) = match targets.get(slot) {
+        Some(t) => t,
+        None => {
+            println!("{} => NOMODEL NO-TARGET", case);
+            return;
+        }
+    };
+    let build = |m: &AutosarModel| -> Result<autosar_data::Element, String> {
+        let mut cur = m.root_element();
+        for (i, (name, named)) in path.iter().enumerate() {
+            cur = if *named { cur.create_named_sub_element(*name, &format!("n{}", i)) } else { cur.create_sub_element(*name) }.map_err(|e| format!("{:?} at {}", e, name))?;
+        }
+        Ok(cur)
+    };
+    let walk = |m: &AutosarModel| -> Option<autosar_data::Element> {
+        let mut cur = m.root_element();
+        for (name, _) in path.iter() {
+            cur = cur.get_sub_element(*name)?;
+        }
+        Some(cur)
+    };
+    // a valid value of the element's own kind that is in place before the call
+    let baseline: Option<CharacterData> = match spec {
+        CharacterDataSpec::Enum { items } => items.iter().find(|(_, m)| m & (AutosarVersion::LATEST as u32) != 0).map(|(i, _)| CharacterData::Enum(*i)),
+        CharacterDataSpec::Pattern { .. } => Some(CharacterData::String("1".to_string())),
+        CharacterDataSpec::String { .. } => Some(CharacterData::String("base".to_string())),
+        CharacterDataSpec::UnsignedInteger => Some(CharacterData::UnsignedInteger(7)),
+        CharacterDataSpec::Float => Some(CharacterData::Float(1.25)),
+    };
+    let _ = w;
+    for with_base in [false, true] {
+        let r = g(|| -> Result<String, String> {
+            let m = AutosarModel::new();
+            let file = m.create_file("a.arxml", AutosarVersion::LATEST).map_err(|e| format!("{:?}", e))?;
+            let el = build(&m)?;
+            let mut before: Option<CharacterData> = None;
+            if with_base {
+                if let Some(b) = &baseline {
+                    if el.set_character_data(b.clone()).is_ok() {
+                        before = el.character_data();
+                    }
+                }
+            }
+            let res = el.set_character_data(handed.clone());
+            let after = el.character_data();
+            let mut line = format!("{}[{}] set={} stored={}", label, if with_base { "over-value" } else { "empty" }, if res.is_ok() { "ok" } else { "err" }, after.as_ref().map(value_s).unwrap_or("-".into()));
+            match (&res, &after) {
+                (Err(_), a) => {
+                    let same = match (&before, a) {
+                        (None, None) => true,
+                        (Some(x), Some(y)) => same_value(x, y),
+                        _ => false,
+                    };
+                    if !same {
+                        return Err(format!("FAIL the call failed but character_data() changed from {:?} to {:?}", before.as_ref().map(value_s), a.as_ref().map(value_s)));
+                    }
+                }
+                (Ok(()), None) => return Err("FAIL the call succeeded but character_data() is empty".to_string()),
+                (Ok(()), Some(stored)) => {
+                    if !denotes_same(handed, stored) {
+                        return Err(format!("FAIL the call succeeded but the stored value {} is not the value handed in {}", value_s(stored), value_s(handed)));
+                    }
+                    // the accepted value must be a valid value of the element's spec kind
+                    let kind_ok = matches!(
+                        (spec, stored),
+                        (CharacterDataSpec::Enum { .. }, CharacterData::Enum(_))
+                            | (CharacterDataSpec::Pattern { .. }, CharacterData::String(_))
+                            | (CharacterDataSpec::String { .. }, CharacterData::String(_))
+                            | (CharacterDataSpec::UnsignedInteger, CharacterData::UnsignedInteger(_))
+                            | (CharacterDataSpec::Float, CharacterData::Float(_))
+                    );
+                    if !kind_ok {
+                        return Err(format!("FAIL the stored value {} has not the kind of the element's specification", value_s(stored)));
+                    }
+                    // and it survives serialize + strict load
+                    let text = file.serialize().map_err(|e| format!("{:?}", e))?;
+                    let m2 = AutosarModel::new();
+                    match m2.load_buffer(text.as_bytes(), "b.arxml", true) {
+                        Err(e) => return Err(format!("FAIL the file written after the call is rejected by a strict load: {:?}", e)),
+                        Ok(_) => {
+                            let back = walk(&m2).and_then(|e| e.character_data());
+                            line.push_str(&format!(" reload={}", back.as_ref().map(value_s).unwrap_or("-".into())));
+                            let same = match (&back, stored) {
+                                (Some(CharacterData::String(a)), CharacterData::String(b)) => a.trim() == b.trim(),
+                                (Some(a), b) => same_value(a, b),
+                                (None, CharacterData::String(b)) => b.trim().is_empty(),
+                                (None, _) => false,
+                            };
+                            if !same {
+                                return Err(format!("FAIL stored {} but serialize + strict load gives {:?}", value_s(stored), back.as_ref().map(value_s)));
+                            }
+                        }
+                    }
+                }
+            }
+            Ok(line)
+        });
+        st.class(&format!("element:{}<-{}", label, &value_s(handed)[..1]));
+        match r {
+            Ok(Ok(line)) => println!("{} => NOMODEL {}", case, line),
+            Ok(Err(e)) if e.starts_with("FAIL") => {
+                println!("{} => NOMODEL {}[{}] {}", case, label, if with_base { "over-value" } else { "empty" }, e);
+                fail(st, "element-value", case, &format!("{} element {}: {}", label, path.last().map(|p| p.0.to_string()).unwrap_or_default(), &e[5..]));
+            }
+            Ok(Err(e)) => println!("{} => NOMODEL SETUP-ERROR {}", case, e),
+            Err(_) => {
+                println!("{} => NOMODEL PANIC", case);
+                fail(st, "element-value", case, "panic");
+            }
+        }
     }
 }
 
@@ -1303,6 +1519,36 @@ fn gen(w: &World, seed: u64, thorough: bool) -> Vec<String> {
         cases.push(format!("TS S:{}", hex(s.as_bytes())));
         cases.push(format!("XS {}", hex(s.as_bytes())));
     }
+    // ---- element level: every value kind x boundary values handed to an element of every spec kind
+    {
+        let mut vals: Vec<String> = Vec::new();
+        for n in [0u64, 1, 7, (1u64 << 53) - 1, 1u64 << 53, (1u64 << 53) + 1, (1u64 << 63) - 1, 1u64 << 63, (1u64 << 63) + 1, u64::MAX - 2048, u64::MAX - 1, u64::MAX] {
+            vals.push(format!("U:{}", n));
+        }
+        for x in [0.0f64, -0.0, 1.0, 7.0, 0.5, 1.5, -1.0, -7.0, 9007199254740991.0, 9007199254740992.0, 9007199254740994.0, 9223372036854775808.0,
+            18446744073709549568.0, 18446744073709551616.0, 18446744073709555712.0, 36893488147419103232.0, 1e300, -1e300, 5e-324, 1e-7,
+            f64::INFINITY, f64::NEG_INFINITY, f64::NAN, f64::MAX] {
+            vals.push(format!("F:{:016x}", x.to_bits()));
+        }
+        for t in ["", "0", "1", "7", "+7", "-1", "007", "0x10", "0b1", "1.5", "1e3", "1E3", "INF", "-INF", "NaN", "inf", "abc", " 7", "7 ", "true",
+            "9007199254740993", "18446744073709551615", "18446744073709551616", "18446744073709551617", "18446744073709551616.0", "1.8446744073709552e19"] {
+            vals.push(format!("S:{}", hex(t.as_bytes())));
+        }
+        let targets = element_targets();
+        for (slot, (_, _, spec)) in targets.iter().enumerate() {
+            for v in vals.iter() {
+                cases.push(format!("EV {} {}", slot, v));
+            }
+            // enum items: one of the element's own list (when it has one), one foreign
+            if let CharacterDataSpec::Enum { items } = spec {
+                for (i, _) in items.iter().take(3) {
+                    cases.push(format!("EV {} E:{}", slot, *i as u16));
+                }
+            }
+            cases.push(format!("EV {} E:{}", slot, some_items[0]));
+            cases.push(format!("EV {} E:{}", slot, some_items[some_items.len() / 2]));
+        }
+    }
     // ---- parse / check_value / round trip with the real specs
     let versions: Vec<u32> = (0..32).map(|i| 1u32 << i).filter(|b| AutosarVersion::from_val(*b).is_some()).collect();
     let vfirst = versions[0];
@@ -1431,6 +1677,9 @@ pub fn main(args: &[String]) {
     println!("HOOK {}", hook::AVAILABLE as u32);
     for (i, s) in w.specs.iter().enumerate() {
         println!("SPEC {} {}", i, cdata_summary(s));
+    }
+    for (i, (label, path, spec)) in element_targets().iter().enumerate() {
+        println!("ETARGET {} {} /{} {}", i, label, path.iter().map(|p| p.0.to_string()).collect::<Vec<_>>().join("/"), &cdata_summary(spec).chars().take(60).collect::<String>());
     }
     match args.first().map(|s| s.as_str()) {
         Some("run") => {
